@@ -4,6 +4,7 @@ package c13
 import (
 	"encoding/binary"
 	"fmt"
+	appmint "github.com/sunriselayer/sunrise/app/mint"
 	"math/big"
 	"time"
 
@@ -176,6 +177,60 @@ func (c mintCase) coq() string {
 		emit.Z(c.FeeSupply), emit.Z(c.BondSupply), optZ(c.Last), emit.Z(c.NowNs), emit.Z(c.Ratio))
 }
 
+// boundaryMint builds a mint case whose annual provision A (computed by the application's own
+// CalculateAnnualProvision) satisfies A*secs = k*year + off for off in {-g, 0, +g}, g = gcd(secs, year).
+func boundaryMint(h *apph.H, r *emit.Rand, i int) (mintCase, bool) {
+	secsList := []int64{60, 61, 59, 3600, 7, 86400, 1, 120, 90}
+	secs := secsList[i%len(secsList)]
+	off := int64(i/len(secsList))%3 - 1 // -1, 0, +1 (times g)
+	now := genesisSec + r.Int63n(12*year) + 1000
+	t := time.Unix(now, 0).UTC()
+	ctx := h.CtxAt(t)
+	annual := func(sup *big.Int) *big.Int {
+		return appmint.CalculateAnnualProvision(ctx, appmint.InflationRateCapInitial, appmint.InflationRateCapMinimum, appmint.DisinflationRate,
+			appmint.SupplyCap, appmint.Genesis, sdkmath.NewIntFromBigInt(sup)).BigInt()
+	}
+	// between 150M and 800M tokens
+	s0 := new(big.Int).Add(new(big.Int).Mul(big.NewInt(150_000_000), big.NewInt(1_000_000)), r.Big(new(big.Int).Mul(big.NewInt(650_000_000), big.NewInt(1_000_000))))
+	a0 := annual(s0)
+	if a0.Sign() <= 0 {
+		return mintCase{}, false
+	}
+	g := new(big.Int).GCD(nil, nil, big.NewInt(secs), big.NewInt(year)).Int64()
+	m := year / g
+	u := new(big.Int).ModInverse(big.NewInt((secs/g)%m), big.NewInt(m))
+	if u == nil {
+		u = big.NewInt(0) // secs/g = 0 mod m cannot happen for secs < year; m = 1 when secs divides... then every A works
+	}
+	want := new(big.Int).Mod(new(big.Int).Mul(big.NewInt(off), u), big.NewInt(m)) // A = off * inv(secs/g) (mod m)
+	d := new(big.Int).Sub(want, new(big.Int).Mod(a0, big.NewInt(m)))
+	d.Mod(d, big.NewInt(m))
+	target := new(big.Int).Add(a0, d)
+	// annual is floor(rate * supply) below the cap: monotone, search the supply that gives the target
+	lo, hi := new(big.Int).Set(s0), new(big.Int).Add(s0, new(big.Int).Mul(new(big.Int).Add(d, big.NewInt(2)), big.NewInt(60)))
+	if annual(hi).Cmp(target) < 0 {
+		return mintCase{}, false
+	}
+	for lo.Cmp(hi) < 0 {
+		mid := new(big.Int).Rsh(new(big.Int).Add(lo, hi), 1)
+		if annual(mid).Cmp(target) < 0 {
+			lo.Add(mid, big.NewInt(1))
+		} else {
+			hi.Set(mid)
+		}
+	}
+	if annual(lo).Cmp(target) != 0 {
+		return mintCase{}, false
+	}
+	last := now - secs
+	one := new(big.Int).Exp(big.NewInt(10), big.NewInt(18), nil)
+	c := mintCase{Last: &last, NowNs: new(big.Int).Mul(big.NewInt(now), big.NewInt(1_000_000_000)), Ratio: r.Big(new(big.Int).Add(one, big.NewInt(1)))}
+	// keep both parts above the genesis floor of the test chain (runMint clamps to it)
+	c.BondSupply = new(big.Int).Add(h.Supply(h.Ctx(), bond).BigInt(), r.Big(new(big.Int).Rsh(lo, 2)))
+	c.FeeSupply = new(big.Int).Sub(lo, c.BondSupply)
+	return c, true
+}
+
 // runMint executes the real MintFn for one case inside a discarded cache context.
 func runMint(h *apph.H, c *mintCase) (obs string, info map[string]any) {
 	base := h.Ctx()
@@ -344,6 +399,14 @@ func Run(seed int64, n int, outDir string) error {
 	}
 	for _, c := range corpus {
 		doMint(c, "corpus:long-gap")
+	}
+	// supplies at which the pro-rated provision sits exactly on, just below and just above a whole
+	// unit (annual x seconds = k x year - g, k x year, k x year + g): where any rounding of the year
+	// fraction, instead of the exact integer quotient, shows
+	for i := 0; i < 36; i++ {
+		if c, ok := boundaryMint(hm, r, i); ok {
+			doMint(c, "boundary")
+		}
 	}
 	nm := n * 2 / 3
 	for i := 0; i < nm; i++ {
